@@ -166,7 +166,10 @@ class RootContextBuilder:
         # There is little good about starred imports (and no benefit over
         # `import numpy as np`, for example), and many issues such as clobbering, etc.
         if is_starred_import(node) and not self.context.is_init_file:
-            error_starred_import_outside_init(node, node.module or node.names[0].name)
+            error_starred_import_outside_init(
+                node,
+                "." * node.level + (node.module or ""),
+            )
 
         # Dispatch to specific import-type handler
         if is_relative_import(node) and is_starred_import(node):
